@@ -1229,6 +1229,10 @@ class TmpStore:
             raise Unsupported(
                 "Blobs are not supported by the underlying storage %r." %
                 self._storage)
+        if oid not in self.index:
+            # Not stored by a savepoint -- or, after a rollback, no
+            # longer: a file left by a rolled-back store must not be found.
+            return self._storage.loadBlob(oid, serial)
         filename = self._getCleanFilename(oid, serial)
         if not os.path.exists(filename):
             return self._storage.loadBlob(oid, serial)
